@@ -234,6 +234,7 @@ type tcase struct {
 	defs  [][]string // declared lists built so far
 	sets  [][]item   // every output set its command was expected to produce
 	lastOK, everBuilt bool
+	poisonLive        bool // the cache holds a tampered entry for the current definition
 	rng   *lib.Rng
 	checkTerm, checkKey string
 	checkJS   any
@@ -499,6 +500,7 @@ var configs = []config{
 // one repository = K independent targets, driven through five builds
 
 var failedRe = regexp.MustCompile(`(?m)^    (//[^\s:]+:[^\s]+)$`)
+var errorRe = regexp.MustCompile(`(?m)ERROR: (//[^\s:]+:[^\s]+) failed:`)
 
 var dbgMu sync.Mutex
 var dbgN int
@@ -514,6 +516,9 @@ func runBuild(repo *e2e.Repo, labels []string) buildObs {
 	res := repo.Run(120*time.Second, append([]string{"build", "--keep_going"}, labels...)...)
 	o := buildObs{failed: map[string]bool{}, ran: map[string]bool{}, text: res.Stdout + "\n" + res.Stderr, exit: res.Exit}
 	for _, m := range failedRe.FindAllStringSubmatch(o.text, -1) {
+		o.failed[m[1]] = true
+	}
+	for _, m := range errorRe.FindAllStringSubmatch(o.text, -1) {
 		o.failed[m[1]] = true
 	}
 	for _, l := range res.Executed {
@@ -558,6 +563,7 @@ type episode struct {
 	fatal string
 	fails []lib.Failing
 	nOracle int
+	unreported int
 	hists [][2]string
 }
 
@@ -687,7 +693,7 @@ func (ep *episode) run(c *lib.Ctx, base string) {
 			repo.RemovePlzOut()
 			for _, t := range ep.Cases {
 				t.steps = append(t.steps, "SRmOut")
-				if t.Kind == "genrule" && t.lastOK && t.Poison != "none" && len(t.eff()) > 0 {
+				if t.Kind == "genrule" && t.Shape != "outdir" && t.lastOK && t.Poison != "none" && len(t.eff()) > 0 {
 					its, done := poisonCache(repo, t, t.Poison == "inplace")
 					if !done {
 						ep.notes = append(ep.notes, "no cache entry found to poison for "+t.Label)
@@ -704,17 +710,43 @@ func (ep *episode) run(c *lib.Ctx, base string) {
 					}
 					t.steps = append(t.steps, lib.App("SPoison", coqKey(t.eff(), t.SrcVer), lib.List(fs)))
 					t.trail = append(t.trail, map[string]any{"poison": t.Poison, "entry": its})
+					t.poisonLive = true
 				} else {
 					t.Poison = "none"
 				}
 			}
 		case 4:
 			for _, t := range ep.Cases {
+				before := fmt.Sprint(strings.Join(t.eff(), ""), "#", t.SrcVer)
 				ep.applyEdit(c, t)
+				if fmt.Sprint(strings.Join(t.eff(), ""), "#", t.SrcVer) != before {
+					t.poisonLive = false // another rule hash, another cache key
+				}
 			}
 		}
 		repo.Write(ep.spec())
 		o := runBuild(repo, labels)
+		// With --keep_going plz sometimes stops ("Build stopped after ...") while a requested target is still
+		// running its command: that target is neither reported failed nor built. This is a scheduling matter
+		// (C04/C05), not a hash matter; the step is repeated (a repeated build of an unchanged tree is the same
+		// step: success -> no-op, failure -> the same failure) and "ran" accumulates.
+		for attempt := 0; attempt < 3 && o.exit != 0; attempt++ {
+			unreported := false
+			for _, t := range ep.Cases {
+				if !o.failed[t.Label] && t.readDisk(repo) == nil {
+					unreported = true
+				}
+			}
+			if !unreported {
+				break
+			}
+			ep.unreported++
+			o2 := runBuild(repo, labels)
+			for l := range o.ran {
+				o2.ran[l] = true
+			}
+			o = o2
+		}
 		if o.exit != 0 && len(o.failed) == 0 || o.exit == 0 && len(o.failed) != 0 || o.exit < 0 {
 			ep.fatal = fmt.Sprintf("step %d: exit %d with %d failed targets listed: %s", step, o.exit, len(o.failed), tailStr(o.text, 1500))
 			return
@@ -838,6 +870,7 @@ func (ep *episode) oracle(_ *lib.Ctx, t *tcase, step int, ok, ran bool, disk []i
 	if ok {
 		// (1) success => the outputs now in plz-out hash to a declared value
 		if disk == nil {
+			in["output_text"] = tailStr(o.text, 3000)
 			c.Fail("success-without-outputs", fmt.Sprintf("%s reported built but an output is missing in plz-out", t.Label), in)
 		} else if len(declared) > 0 && !oracleMatches(ep.Cfg, disk, declared) {
 			class := "success-without-matching-hash"
@@ -865,7 +898,7 @@ func (ep *episode) oracle(_ *lib.Ctx, t *tcase, step int, ok, ran bool, disk []i
 		// (3) failure only for a declared mismatch; and nothing is left behind
 		if len(declared) == 0 {
 			c.Fail("failed-without-hashes", fmt.Sprintf("%s failed although it declares no hashes: %s", t.Label, tailStr(o.text, 600)), in)
-		} else if oracleMatches(ep.Cfg, t.produce(), declared) && step == 3 && t.lastOK && (t.Poison == "replace" || t.Poison == "inplace") {
+		} else if oracleMatches(ep.Cfg, t.produce(), declared) && step >= 3 && t.poisonLive {
 			c.Fail("rebuild-after-rejected-restore-uses-stale-output-hash", fmt.Sprintf("%s: its tampered cache entry was rejected and the target rebuilt, but the rebuilt outputs were compared with the memoised output hash of the rejected artifacts; %q matches plz's own output hash of the real outputs and a clean build accepts it: %s", t.Label, declared, tailStr(o.text, 400)), in)
 		} else if oracleMatches(ep.Cfg, t.produce(), declared) {
 			c.Fail("rejected-matching-hash", fmt.Sprintf("%s failed although a declared hash matches what its command produces: %s", t.Label, tailStr(o.text, 600)), in)
@@ -883,6 +916,9 @@ func (ep *episode) oracle(_ *lib.Ctx, t *tcase, step int, ok, ran bool, disk []i
 	}
 	if ok && t.Kind == "genrule" {
 		t.everBuilt = true
+		if ran {
+			t.poisonLive = false // a successful build overwrites the cache entry
+		}
 	}
 	// (4) fresh build (step 1): accept <=> some declared value matches
 	if step == 1 && len(declared) > 0 {
@@ -1078,6 +1114,10 @@ func main() {
 		for _, ep := range eps {
 			if ep.fatal != "" {
 				panic(fmt.Sprintf("repository %d: %s", ep.Index, ep.fatal))
+			}
+			if ep.unreported > 0 {
+				c.Note("repo %d: %d build(s) stopped with a requested target neither built nor reported failed (--keep_going); step repeated", ep.Index, ep.unreported)
+				c.Hist("keep_going_unreported_target", "seen")
 			}
 			for _, n := range ep.notes {
 				c.Note("repo %d: %s", ep.Index, n)
